@@ -147,7 +147,7 @@ def cbAccept (s : St) (inj : Inj) (i : Nat) (k : HKind) (streamInit : Bool) : St
 
 /-- uv__emfile_trick's loop (stream.c:494-498): accept and close until the backlog is empty or accept fails -/
 def shed (inj : Inj) (i : Nat) : Nat → St → St
-  | 0, s => s
+  | 0, s => s.tick inj "accept4"      -- the accept4 that finds the backlog empty (EAGAIN) ends the loop
   | n + 1, s =>
     match s.fails inj "accept4" with
     | some _ => s.tick inj "accept4"
